@@ -31,19 +31,23 @@ print("confirm:", res)
 confirmed = all(res.values())
 checks = {}
 if confirmed:
-    assert subprocess.run("git -C /repo status --porcelain", shell=True, capture_output=True, text=True).stdout.strip() == "", "/repo not clean"
+    inwt = "--wt" in sys.argv  # development: run the checks against the scratch worktree (VERIF_REPO) so several evaluations can run in parallel
+    target = wt if inwt else "/repo"
+    cenv = "VERIF_REPO=%s " % wt if inwt else ""
+    if not inwt:
+        assert subprocess.run("git -C /repo status --porcelain", shell=True, capture_output=True, text=True).stdout.strip() == "", "/repo not clean"
     try:
-        rc, out = sh(f"git apply {patch}", "/repo"); assert rc == 0, out
+        rc, out = sh(f"git apply {patch}", target); assert rc == 0, out
         for p in props:
-            rc, out = sh(f"/verif/check {p} --tier quick", "/verif")
+            rc, out = sh(f"{cenv}/verif/check {p} --tier quick", "/verif")
             first = [l for l in out.splitlines() if l.startswith(("VIOLATION", "OK ", "INCONCLUSIVE"))][:1]
             checks[p] = {"quick_exit": rc, "quick": first[0] if first else ""}
             if rc == 0 and "--nothorough" not in sys.argv:
-                rc, out = sh(f"/verif/check {p} --tier thorough", "/verif", timeout=7200)
+                rc, out = sh(f"{cenv}/verif/check {p} --tier thorough", "/verif", timeout=7200)
                 first = [l for l in out.splitlines() if l.startswith(("VIOLATION", "OK ", "INCONCLUSIVE"))][:1]
                 checks[p]["thorough_exit"] = rc; checks[p]["thorough"] = first[0] if first else ""
     finally:
-        subprocess.run("git -C /repo checkout -- . && git -C /repo clean -fdq", shell=True)
+        subprocess.run(f"git -C {target} checkout -- . && git -C {target} clean -fdq", shell=True)
     print("checks:", json.dumps(checks, indent=1))
 dst = f"/verif/seeded/{pid}-{sys.argv[sys.argv.index('--as') + 1] if '--as' in sys.argv else n}"
 os.makedirs(dst, exist_ok=True)
@@ -54,5 +58,6 @@ meta["confirmed"] = confirmed
 meta["ran"] = "tools/seedeval.py: git apply in a scratch worktree; go build ./...; go test -count=1 ./...; demo with and without the change; then git -C /repo apply, ./check <id> --tier quick (thorough if quick missed), git -C /repo checkout -- ."
 meta["check_results"] = checks
 json.dump(meta, open(f"{dst}/meta.json", "w"), indent=1)
-subprocess.run(f"rm -rf /verif/replays/{pid}", shell=True)
+if "--keepreplays" not in sys.argv:
+    subprocess.run(f"rm -rf /verif/replays/{pid}", shell=True)
 print("filed", dst, "caught=", {p: (c.get("quick_exit") == 1 or c.get("thorough_exit") == 1) for p, c in checks.items()})
